@@ -143,6 +143,20 @@ def _migrate_csv_to_rules(csv_file: str, config_dir: str, backup: bool = True,
     import shutil
 
     try:
+        # A budget whose settings name this very CSV as merchants_file keeps running on it:
+        # settings.yaml is only ever appended to, so moving the CSV away would leave the
+        # budget pointing at nothing
+        try:
+            configured = (load_settings(config_dir, settings_file) or {}).get('merchants_file')
+        except Exception:
+            configured = None
+        if isinstance(configured, str) and configured:
+            budget_dir = os.path.dirname(os.path.abspath(config_dir))
+            if os.path.abspath(os.path.join(budget_dir, configured)) == os.path.abspath(csv_file):
+                print(f"  {C.YELLOW}→{C.RESET} {settings_file} names {configured} as merchants_file - left in place")
+                print(f"      To upgrade, point merchants_file at config/merchants.rules and run again")
+                return False
+
         # Load and convert
         csv_rules = load_merchant_rules(csv_file)
         content = csv_to_merchants_content(csv_rules)
